@@ -1,21 +1,37 @@
 ---------------------------- MODULE FlateStream ----------------------------
 (* Exhaustive check that cbuf.Write (FlateOps!CbufWrite) refines the       *)
 (* property-level description for every chunking of every byte string up   *)
-(* to MaxTotal bytes over Alphabet.                                        *)
+(* to MaxTotal bytes over Alphabet, and that Writer.Reset (cbuf.reset)     *)
+(* makes the pair behave as new (C18): the flush verdict of the code,      *)
+(* which looks at the four held bytes only (Writer.checkTail), agrees with *)
+(* the property for what the compressor emitted since the reset.           *)
+(* BugResetKeepsTail plants a reset that leaves the held bytes in place.   *)
 EXTENDS FlateOps
 
-CONSTANTS Alphabet, MaxTotal, MaxChunk
+CONSTANTS Alphabet, MaxTotal, MaxChunk, MaxResets, BugResetKeepsTail
 
-VARIABLES c, cout
+VARIABLES c, cout, resets
 
-Init == c = CbufInit /\ cout = <<>>
-Next == \E k \in 0..MaxChunk : \E p \in [1..k -> Alphabet] :
+CbufReset(x) == [buf |-> IF BugResetKeepsTail THEN x.buf ELSE <<0, 0, 0, 0>>, n |-> 0, fwd |-> <<>>]
+
+\* Writer.checkTail: w.cbuf.buf != compressionTail
+CodeFlushOk(x) == x.buf = Tail4
+
+Init == c = CbufInit /\ cout = <<>> /\ resets = 0
+Emit == \E k \in 0..MaxChunk : \E p \in [1..k -> Alphabet] :
            /\ Len(cout) + k <= MaxTotal
-           /\ c' = CbufWrite(c, p) /\ cout' = cout \o p
+           /\ c' = CbufWrite(c, p) /\ cout' = cout \o p /\ UNCHANGED resets
+Reset == /\ resets < MaxResets
+         /\ c' = CbufReset(c) /\ cout' = <<>> /\ resets' = resets + 1
+Next == Emit \/ Reset
 
 \* the implementation refines the property
 Refines == /\ c.fwd = Forwarded(cout)
            /\ c.n = Min2(4, Len(cout))
            /\ SubSeq(c.buf, 1, c.n) = LastN(cout, 4)
            /\ (c.buf = Tail4 /\ c.n = 4) = FlushOk(cout)
+           /\ CodeFlushOk(c) = FlushOk(cout)
+
+\* C18: a reset writer is indistinguishable from a new one
+ResetIsFresh == cout = <<>> => c = CbufInit
 =============================================================================
